@@ -218,12 +218,12 @@ CLAIMED["C17"] = dict(
         "non-empty part of one visible interval inside the requested range and reads the chunk at exactly the position that interval shows there (same file id, same "
         "position shift), including the overflow cases of offset+size; mergeIntoManifest: the manifest chunk spans exactly from the smallest offset to the furthest end "
         "of the chunks it replaces (inductive min/max invariants); ChunkReadAt.doReadAt on a range no chunk covers: the bytes reported as read are zeros and their number "
-        "is the part of the buffer below the file size. Thorough tier adds MergeIntoVisibles as a bounded check (see note).",
-   note="MergeIntoVisibles (every interval of the result is the new chunk's own interval or a piece of an old interval outside the new chunk's range showing the same "
-        "bytes) is checked BOUNDED - both loops unrolled for at most one old interval, all offsets/sizes/ids symbolic - in the thorough tier only (about 8 minutes); its "
-        "inductive invariants need an existential witness per element and no solver discharged them, so it is not counted as proved; the seeded change C17-m1 is caught "
-        "by that bounded check only. Not decided: doReadAt with chunks (copy offsets), NonOverlappingVisibleIntervals' sort order and ResolveChunkManifest, "
-        "doMaybeManifestize batching, completeness of the overlay (every uncovered old byte stays visible). One defect repaired (holes not zeroed). " + TRUST,
+        "is the part of the buffer below the file size. MergeIntoVisibles, for any number of old intervals, as a guard obligation at every append of the function: what "
+        "is appended to the result is the new chunk's own interval, or a non-empty piece of the old interval being visited that shows the same bytes at the same file "
+        "positions and lies completely outside the new chunk's range.",
+   note="The MergeIntoVisibles guard replaced a bounded stand-in (at most one old interval, thorough tier only). Not decided: completeness of the overlay (every "
+        "uncovered old byte stays visible), the final loop that moves the new interval to its place in start order, doReadAt with chunks (copy offsets), "
+        "NonOverlappingVisibleIntervals' sort order and ResolveChunkManifest, doMaybeManifestize batching. One defect repaired (holes not zeroed). " + TRUST,
    design="DESIGN.md §4 C17")
 
 CLAIMED["C04"] = dict(
